@@ -2,6 +2,7 @@
 
 import datetime as dt
 import itertools as it
+import os
 from pathlib import Path
 import re
 import sys
@@ -13,6 +14,17 @@ from typist import PathLike
 from zorg.domain.types import Color, VarMapType
 
 _T = TypeVar("_T")
+
+
+def atomic_write_text(path: Path, text: str) -> None:
+    """Replaces the contents of {path} with {text} in one step.
+
+    If we die while writing, {path} still has its old contents (instead of a
+    truncated file that holds neither the old nor the new ones).
+    """
+    tmp_path = path.with_name(f".{path.name}.tmp")
+    tmp_path.write_text(text)
+    os.replace(tmp_path, path)
 
 
 def get_only_item(items: Iterable[_T]) -> _T:
